@@ -274,6 +274,217 @@ for _os in (True, False):
     _analyze_children(_os)
 
 
+# ---- children() completeness of every expression class, as a relation between the real
+# ---- evaluate()/evaluate_async() and the real children(): in every presence configuration of the
+# ---- optional parts, every sub-expression that an evaluation may evaluate is returned by
+# ---- children() -- so _analyze_variables (contract above) reaches every path a render evaluates
+
+import itertools  # noqa: E402
+
+EXPR = "liquid.expression:Expression"
+FILTER = "liquid.builtin.expressions.filtered:Filter"
+FILT = "liquid.builtin.expressions.filtered"
+LOGI = "liquid.builtin.expressions.logical"
+
+
+def _field_options(c, ann, fname):
+    """symbolic values for one constructor parameter, by its annotation"""
+    a = (ann or "").replace(" ", "")
+    stub = lambda tag="": c.obj(EXPR, f"{fname}{tag}", token=NONE)  # noqa: E731
+    if a == "FilteredExpression":
+        # a filtered expression is never itself a variable reference: a parent may list its
+        # children instead of it (TernaryFilteredExpression flattens `left`)
+        return [("x", c.obj(EXPR, fname, token=NONE, __kid__=stub("_child"), __flattenable__=const(True)))]
+    if a == "Expression":
+        return [("x", stub())]
+    if a in ("Expression|None", "Optional[Expression]"):
+        return [("none", NONE), ("x", stub())]
+    if a in ("list[Filter]|None", "Optional[list[Filter]]"):
+        f1 = c.obj(FILTER, f"{fname}_filter", name=c.str(f"{fname}_filter_name"), token=NONE, args=c.st.alloc(HList(items=[])), __arg__=stub("_arg"))
+        return [("none", NONE), ("empty", c.st.alloc(HList(items=[]))), ("one", c.st.alloc(HList(items=[f1])))]
+    if a == "list[Expression]":
+        return [("two", c.st.alloc(HList(items=[stub("0"), stub("1")])))]
+    if a == "Token":
+        return [("tok", NONE)]
+    if a == "str":
+        return [("s", c.str(fname))]
+    if a == "bool":
+        return [("b", c.bool(fname))]
+    return None
+
+
+# sub-expressions that the OWNING NODE reports itself (so the expression need not list them)
+SHARED = {("_AnyExpression", "left"): "the case subject is yielded by CaseNode.expressions() (obligation 'shared-subexpressions' below)"}
+
+
+@structural("C19", "shared-subexpressions")
+def shared_subexpressions():
+    """_AnyExpression.left is the CaseNode's own expression: CaseTag.parse builds every
+    _AnyExpression with the `left` it hands to the CaseNode, and CaseNode.expressions yields it"""
+    mod = load.get_module("liquid.builtin.tags.case_tag")
+    node = mod.classes["CaseNode"]
+    ex = load._last_def(node.body, "expressions")
+    yields = [ast.unparse(y.value) for y in ast.walk(ex) if isinstance(y, ast.Yield) and y.value is not None]
+    tag = mod.classes["CaseTag"]
+    parse = load._last_def(tag.body, "parse")
+    anys = [cl for cl in flow.calls(parse) if flow.dotted(cl.func) == "_AnyExpression"]
+    rets = [cl for cl in flow.calls(parse) if flow.dotted(cl.func) == "self.node_class"]
+    same = bool(anys) and bool(rets) and all(len(cl.args) >= 2 and isinstance(cl.args[1], ast.Name) and any(isinstance(a, ast.Name) and a.id == cl.args[1].id for r in rets for a in r.args) for cl in anys)
+    return [flow.ob("CaseNode.expressions-yields-the-case-subject", "self.expression" in yields, str(yields)),
+            flow.ob("CaseTag.parse-gives-every-when-clause-the-node's-own-subject", same, f"{len(anys)} _AnyExpression(...) constructions")]
+
+
+def _expr_classes():
+    out = []
+    for m, cname, cnode in flow.iter_classes():
+        names = [c_[1] for c_ in load.mro(m, cname)]
+        if "Expression" not in names[1:]:
+            continue
+        if load._last_def(cnode.body, "children") is None or load._last_def(cnode.body, "evaluate") is None:
+            continue
+        init = load.find_method(m, cname, "__init__")
+        out.append((m, cname, init[2] if init else None))
+    return out
+
+
+def _children_complete(m, cname, init, sfx):
+    params = [(a.arg, ast.unparse(a.annotation) if a.annotation else None) for a in (init.args.args[1:] + init.args.kwonlyargs)] if init is not None else []
+
+    @contract(f"{m}:{cname}.evaluate{sfx}", prop="C19", name=f"{cname}.children() covers evaluate{sfx}()")
+    def cc(c):
+        std_globals(c)
+        opts = []
+        for pn, ann in params:
+            if cname == "Path" and pn == "path":
+                inner = c.obj("liquid.builtin.expressions.path:Path", "nested_path", token=NONE, path=c.st.alloc(HList(items=[c.str("inner_root")])))
+                o = [("segments", c.st.alloc(HList(items=[c.str("root"), inner, c.str("prop")])))]
+            else:
+                o = _field_options(c, ann, pn)
+            if o is None:
+                raise Unsupported(f"no symbolic value for {cname}.__init__({pn}: {ann})")
+            opts.append([(pn, lab, v) for lab, v in o])
+        ctx = mk_ctx(c)
+
+        def ev_stub(eng, st, a, k):
+            st.log.append(("evaluated", a[0]))
+            return [(st, VU(z3.Const(f"value_of_{a[0].addr}_{len(st.log)}", U)))]
+
+        def filt_eval(eng, st, a, k):
+            st.log.append(("evaluated", st.deref(a[0]).fields["__arg__"]))
+            return [(st, VU(z3.Const(f"filtered_{len(st.log)}", U)))]
+
+        def filt_children(eng, st, a, k):
+            return [(st, st.alloc(HList(items=[st.deref(a[0]).fields["__arg__"]])))]
+
+        def get(eng, st, a, k):
+            return [(st, VU(z3.Const(f"resolved_{len(st.log)}", U)))]
+        for n_ in ("evaluate", "evaluate_async"):
+            c.summary(f"{EXPR}.{n_}", ev_stub)
+            c.summary(f"{FILTER}.{n_}", filt_eval)
+            c.summary(f"liquid.builtin.expressions.path:Path.{n_}", lambda eng, st, a, k, _n=n_: (None if st.deref(a[0]).name != "nested_path" else ev_stub(eng, st, a, k)))
+        c.summary(f"{FILTER}.children", filt_children)
+        c.summary(f"{EXPR}.children", lambda eng, st, a, k: [(st, st.alloc(HList(items=[st.deref(a[0]).fields["__kid__"]] if "__kid__" in st.deref(a[0]).fields else [])))])
+        c.summary(CTX + ".get", get)
+        c.summary(CTX + ".get_async", get)
+        c.summary("liquid.builtin.expressions.loop:LoopExpression._slice", lambda eng, st, a, k: [(st, VTuple((NONE, const(0))))])
+        c.summary("liquid.builtin.expressions.loop:LoopExpression._to_iter", lambda eng, st, a, k: [(st, VTuple((NONE, const(0))))])
+        c.summary("liquid.builtin.expressions.primitive:RangeLiteral._make_range", lambda eng, st, a, k: [(st, NONE)])
+        c.summary("liquid.builtin.expressions.loop:LoopExpression._to_int", lambda eng, st, a, k: [(st, VInt(z3.Int(f"int_{len(st.log)}")))])
+
+        def entry(eng, cc_, func):
+            outs = []
+            ch = load.find_method(m, cname, "children")
+            chf = VFunc(ch[2], load.get_module(ch[0]), None, f"{ch[1]}.children", (ch[0], ch[1]))
+            for combo in itertools.product(*opts):
+                base = cc_.st.fork()
+                fields = {("reversed" if pn == "reversed_" else pn): v for pn, _lab, v in combo}
+                fields.setdefault("token", NONE)
+                obj = base.alloc(HObj((m, cname), fields, {}, cname + ":" + ",".join(f"{pn}={lab}" for pn, lab, _v in combo)))
+                label = base.deref(obj).name
+                for s1, r1 in eng.call_function(base.fork(), chf, [], {}, self_val=obj):
+                    if isinstance(r1, Raised):
+                        outs.append((s1, r1))
+                        continue
+                    kids = eng.concrete_items(s1, r1)
+                    for s2, r2 in eng.call_function(s1, func, [ctx], {}, self_val=obj):
+                        evald = [e[1] for e in s2.log if e[0] == "evaluated"]
+                        def covered(x):
+                            if kids is None:
+                                return False
+                            f = s2.deref(x).fields
+                            shared = (cname, next((pn for pn, _l, v in combo if v == x), None)) in SHARED
+                            return x in kids or shared or ("__flattenable__" in f and f["__kid__"] in kids)
+                        missing = [x for x in evald if not covered(x)]
+                        s2.ghost["__cfg__"] = (label, [s2.deref(x).name for x in missing] if kids is not None else ["children() has no concrete spine"])
+                        outs.append((s2, Ret(VBool(z3.BoolVal(not missing)))))
+            return outs
+        c.entry = entry
+        c.ensures("every-sub-expression-an-evaluation-evaluates-is-returned-by-children()", lambda r: r.value.t)
+        c.assume_note("sub-expressions are opaque Expression stubs; a Filter stub evaluates (and lists as its children) one argument expression -- Filter.children/evaluate_args have their own contract below")
+        c.replay("code", code=REPLAY_CHILDREN)
+
+
+for _m, _cn, _init in _expr_classes():
+    _anns = [ast.unparse(a.annotation) if a.annotation else "" for a in (_init.args.args[1:] + _init.args.kwonlyargs)] if _init is not None else []
+    if not any(("Expression" in x or "Filter" in x or x == "Segments") for x in _anns):
+        continue   # literals: no sub-expressions
+    for _sfx in ("", "_async"):
+        if load._last_def(load.get_module(_m).classes[_cn].body, "evaluate" + _sfx) is not None:
+            _children_complete(_m, _cn, _init, _sfx)
+
+
+def _filter_children(sfx):
+    @contract(f"{FILTER}.evaluate_args{sfx}", prop="C19", name=f"Filter.children() covers evaluate_args{sfx}()")
+    def fc(c):
+        vals = [c.obj(EXPR, f"arg_value{i}", token=NONE) for i in range(2)]
+        args = [c.obj("liquid.builtin.expressions.arguments:PositionalArgument", "positional", value=vals[0], token=NONE),
+                c.obj("liquid.builtin.expressions.arguments:KeywordArgument", "keyword", name=c.str("kw"), value=vals[1], token=NONE)]
+        self = c.obj(FILTER, "filter", name=c.str("filter_name"), token=NONE, args=c.st.alloc(HList(items=list(args))))
+
+        def ev_stub(eng, st, a, k):
+            st.log.append(("evaluated", a[0]))
+            return [(st, VU(z3.Const(f"value_{len(st.log)}", U)))]
+        c.summary(f"{EXPR}.evaluate", ev_stub)
+        c.summary(f"{EXPR}.evaluate_async", ev_stub)
+
+        def entry(eng, cc_, func):
+            outs = []
+            ch = load.find_method(FILT, "Filter", "children")
+            chf = VFunc(ch[2], load.get_module(ch[0]), None, "Filter.children", (ch[0], ch[1]))
+            for s1, r1 in eng.call_function(cc_.st, chf, [], {}, self_val=self):
+                kids = eng.concrete_items(s1, r1) if not isinstance(r1, Raised) else None
+                for s2, r2 in eng.call_function(s1, func, [mk_ctx(c)], {}, self_val=self):
+                    evald = [e[1] for e in s2.log if e[0] == "evaluated"]
+                    outs.append((s2, Ret(VBool(z3.BoolVal(kids is not None and all(x in kids for x in evald) and len(evald) == 2)))))
+            return outs
+        c.entry = entry
+        c.ensures("every-argument-value-evaluated-is-a-child", lambda r: r.value.t)
+        c.replay("code", code=REPLAY_CHILDREN)
+
+
+for _sfx in ("", "_async"):
+    _filter_children(_sfx)
+
+
+REPLAY_CHILDREN = r'''
+def run(m):
+    from liquid import Environment
+    class E(Environment):
+        ternary_expressions = True
+        logical_not_operator = True
+        logical_parentheses = True
+    bad = []
+    srcs = {"{{ a if b || append: y }}": {"a", "b", "y"}, "{{ a | append: p if b else c | append: q || append: r }}": {"a", "p", "b", "c", "q", "r"},
+            "{% if not (a and b) or c contains d %}{% endif %}": {"a", "b", "c", "d"}, "{% for x in (lo..hi) limit: n offset: o %}{% endfor %}": {"lo", "hi", "n", "o"},
+            "{{ a[b.c][d] }}": {"a", "b", "d"}, "{% case v %}{% when p, q or r %}{% endcase %}": {"v", "p", "q", "r"}}
+    for src, want in srcs.items():
+        got = set(E().from_string(src).analyze().variables)
+        if not want <= got:
+            bad.append((src, sorted(want - got)))
+    return {"violated": bool(bad), "observed": bad[:3], "witness": "children-incomplete"}
+'''
+
+
 # ---- the analysis has a synchronous and an asynchronous entry point; the obligations of this file
 # ---- are read off the synchronous code, so the asynchronous traversal must be congruent to it
 from contracts.twins import pair_obligations  # noqa: E402
